@@ -237,7 +237,7 @@ def ob_dispatch_executes(ctx):
     ctx.witness_found('dispatch step explored')
 
 
-OBLIGATIONS = [('dispatch_step_executes', ob_dispatch_executes), ('hub_update_d0', ob_hub_update(0)), ('hub_update_d1', ob_hub_update(1)), ('hub_update_d2', ob_hub_update(2)), ('hub_update_d3', ob_hub_update(3)),
+OBLIGATIONS = [('dispatch_step_executes', ob_dispatch_executes), ('hub_update_d0', ob_hub_update(0)), ('hub_update_d1', ob_hub_update(1)), ('hub_update_d2', ob_hub_update(2)), ('hub_update_d3', ob_hub_update(3)), ('hub_update_d12', ob_hub_update(12)),
                ('bond_rewards', ob_bond_rewards), ('bond_rewards_v2', lambda ctx: ob_bond_rewards(ctx, 2)), ('linked_update', ob_linked)]
 
 
